@@ -156,7 +156,7 @@ def collect_eq(prop, tier, rep, seed):
     follow spec/VF2.tla step by step (a divergence is a note, as for C05), and the verdict of == must agree with the
     specification's own run on the recorded instance (same refined labels): True exactly when the run finds a mapping."""
     rnd = random.Random(seed * 104729 + 11)
-    fams = ["smg3", "two", "twop", "ethene", "star4lp", "crg3", "prismr", "scrg2", "ethener", "sn2"]
+    fams = ["smg3", "two", "twop", "twoc", "allylr", "elcyc", "elcyc", "ethene", "star4lp", "crg3", "prismr", "scrg2", "ethener", "sn2"]
     if tier != "quick":
         fams += ["star5", "lp2", "tbp", "oct", "star5r", "cuber", "prismsr", "exch"]
     pairs = family_pairs(rnd, fams, 30 if tier == "quick" else 300)
@@ -309,8 +309,8 @@ def family_pairs(rnd, fams, per_family):
         gs = [g for g in gs if not has_nopar_change(g)]
         if not gs:
             continue
-        idA = IdMap({k + 1: v for k, v in enumerate(rnd.sample(range(0, 60), 9))})
-        idB = IdMap({k + 1: v for k, v in enumerate(rnd.sample(range(100, 900), 9))})
+        idA = IdMap({k + 1: v for k, v in enumerate(rnd.sample(range(0, 60), 12))})
+        idB = IdMap({k + 1: v for k, v in enumerate(rnd.sample(range(100, 900), 12))})
         n = 0
         tries = 0
         while n < per_family and tries < per_family * 20:
@@ -470,7 +470,7 @@ def collect(tier, rep, seed):
     """records real runs, validates them in both modes, reports through rep; returns a coverage dict"""
     rnd = random.Random(seed * 7919 + 5)
     n_small, nmax, n_corpus = (400, 6, 6) if tier == "quick" else (3000, 7, 60)
-    fams = ["smg3", "two", "twop", "ethene", "star4lp", "tbp", "crg3", "prismr", "scrg2", "ethener", "sn2"]
+    fams = ["smg3", "two", "twop", "twoc", "allylr", "elcyc", "elcyc", "ethene", "star4lp", "tbp", "crg3", "prismr", "scrg2", "ethener", "sn2"]
     if tier != "quick":
         fams += ["star5", "lp2", "oct", "star5r", "cuber", "prismsr", "nopar"]
     pairs = (random_pairs(rnd, n_small, nmax) + corpus_pairs(rnd, n_corpus)
@@ -536,8 +536,8 @@ def collect(tier, rep, seed):
 
 SPEC_FILES = ["VF2.tla", "MC_VF2.tla", "MC_VF2S.tla", "SMGFamilies.tla", "SMGIso.tla", "SMGGraph.tla", "SMGStereo.tla",
               "SMGFigures.tla", "SMGGroups.tla", "MC_VF2.cfg", "MC_VF2_thorough.cfg"]
-S_FAMS = {"quick": ["mg3", "smg3", "two", "twop", "ethene", "star4lp", "lp2", "tbp", "crg2", "prismr", "scrg2", "ethener", "sn2"],
-          "thorough": ["mg3", "smg3", "two", "twop", "ethene", "star4lp", "lp2", "tbp", "oct", "star5", "crg2", "crg3", "prismr",
+S_FAMS = {"quick": ["mg3", "smg3", "two", "twop", "twoc", "allylr", "elcyc", "allylr", "ethene", "star4lp", "lp2", "tbp", "crg2", "prismr", "scrg2", "ethener", "sn2"],
+          "thorough": ["mg3", "smg3", "two", "twop", "twoc", "allylr", "elcyc", "allylr", "ethene", "star4lp", "lp2", "tbp", "oct", "star5", "crg2", "crg3", "prismr",
                        "prismsr", "cuber", "scrg2", "ethener", "sn2", "star5r"]}
 S_MODS = {"star5": 7, "star5r": 11, "crg3": 1, "oct": 1}
 
